@@ -45,7 +45,7 @@ var c18Programs = []string{
 	`<%= for ( v ) in xs { let w = v * 2 %><%= w + 1 %>,<% } %>`,
 }
 
-var c18Gaps = []string{"\t", "\n", "\r\n", "  ", " # c\n", ""}
+var c18Gaps = []string{"\t", "\n", "\r\n", "  ", " # c\n", "", " # c\n # d\n", "\n\n # c\n\t# d\r\n"}
 
 func c18Wordy(b byte) bool {
 	return b == '_' || b == '-' || b == '.' || (b >= '0' && b <= '9') || (b >= 'a' && b <= 'z') || (b >= 'A' && b <= 'Z')
@@ -208,6 +208,11 @@ var c18Stmts = []string{
 	`b = f(a)`,
 	`h() { %>text<% }`,
 	`let c = "s"`,
+	// output-tag blocks closed by a later tag: what follows shares the tag with the closing brace
+	`%><%= if (a == 1) { %>Y<% } else { %>N<% }`,
+	`%><%= for (v) in xs { %>L<% }`,
+	`%><%= h() { %>B<% }`,
+	`%><%= if (b) { %>T<% }`,
 }
 
 var c18Tail = `[<%= if (a) { %><%= a %><% } %>|<%= if (b) { %><%= b %><% } %>|<%= if (c) { %><%= c %><% } %>]`
@@ -226,7 +231,7 @@ func init() {
 			return s
 		},
 		Run:  c18Run,
-		Rule: "(gap) 28 programs covering every construct as token lists: every single gap between adjacent tokens of a code tag replaced by each of {tab, newline, CRLF, two spaces, ' # c\\n' line comment, and the empty string where gluing cannot change the tokens ('-' and '.' adjacent to letters/digits are never glued)}; all pairs of gaps; a comment tag / line-comment tag spliced in at every statement boundary inside blocks. (split) every sequence of <=3 (4 thorough) statements from 10 (let, assignment, if, if/else, for, fn literal, call, helper with block, …) x every way of cutting the sequence into <% %> tags (including a statement directly after the closing brace of if/for/fn/helper block in the same tag) x a comment tag or a # line comment inserted at each statement boundary. Oracle: output identical to the canonical layout's (one statement per tag, single spaces); errors identical after replacing 'line N:'. Non-trivial: all re-layouts.",
+		Rule: "(gap) 28 programs covering every construct as token lists: every single gap between adjacent tokens of a code tag replaced by each of {tab, newline, CRLF, two spaces, ' # c\\n' line comment, two consecutive comment lines, blank lines mixed with comment lines, and the empty string where gluing cannot change the tokens ('-' and '.' adjacent to letters/digits are never glued)}; all pairs of gaps; a comment tag / line-comment tag spliced in at every statement boundary inside blocks. (split) every sequence of <=3 (4 thorough) statements from 14 (let, assignment, if, if/else, for, fn literal, call, helper with block, and <%= if/for/helper { %> output-tag blocks closed by a later tag) x every way of cutting the sequence into <% %> tags (including a statement directly after the closing brace of if/for/fn/helper block in the same tag) x a comment tag or a # line comment inserted at each statement boundary. Oracle: output identical to the canonical layout's (one statement per tag, single spaces); errors identical after replacing 'line N:'. Non-trivial: all re-layouts.",
 		Bound: func(th bool) string {
 			if th {
 				return "gap deviations <=2; statement sequences <=4"
